@@ -86,6 +86,7 @@ func newHistRun(c *simcheck.Ctx, sc *histScenario) (*histRun, error) {
 	}
 	w.bodies = h.p.bodySpecs(w.root)
 	w.keyOf = func(l string) string { return h.keys[l] }
+	w.exts = func() *projSpec { return h.p }
 	h.refreshModel("initial tree")
 	return h, nil
 }
@@ -116,6 +117,10 @@ func (h *histRun) refreshModel(why string) {
 func (h *histRun) edit(i int, op *opSpec) error {
 	h.w.op = i
 	switch op.Op {
+	case "wipe-module-cache":
+		h.w.wipeCache()
+		h.w.ctx.St.Count("module_cache_wiped", 1)
+		return nil
 	case "break-source", "restore-source", "edit-source", "touch", "rewrite-same", "dir-add", "dir-remove", "dir-rename", "dir-swap", "dir-move", "dir-lift", "dir-sink", "subdir-rename", "delete-generated", "scribble-generated", "nop":
 	default:
 		h.codeEdited = true
@@ -277,6 +282,7 @@ func (h *histRun) compareFromScratch(label string, tag string) *simcheck.Violati
 		return simcheck.V(simcheck.EngineError, "copy: %v", err)
 	}
 	w2.bodies = h.p.bodySpecs(w2.root)
+	w2.exts = h.w.exts
 	pc := h.pc
 	pc.CrashAt, pc.IOErrAt = 0, nil
 	res := w2.process(fmt.Sprintf("%sscratch-%s", h.prefix, tag), pc, buildOpts{Label: label, Args: h.p.args()}, nil)
